@@ -46,6 +46,12 @@ def events(tier):
     # decay altitudes below the range: rounding can make altDec slightly negative; the quantifier is "all event batches"
     for b, a in itertools.product([math.radians(0.2), math.radians(0.5), math.radians(1.5), math.radians(10.0)], [-1e-13, -0.05, -1.0, -3.0]):
         out.append((b, 1.0, a, math.radians(1.0), 1500.0, 1.0))
+    # out-of-range decays with degenerate geometry: a tau that never decays (infinite decay length and altitude) and a
+    # decay on the shower axis at the detector itself (view angle undefined) -- the field is exactly zero all the same
+    for b in (math.radians(1.0), math.radians(10.0)):
+        out.append((b, math.inf, math.inf, math.radians(1.0), 1500.0, 1.0))
+        out.append((b, 1500.0, 15.0, 0.0, 1500.0, 1.0))
+        out.append((b, 1500.0, -0.5, 0.0, 1500.0, 1.0))
     for b, th, L, E in itertools.product(betas, thetas, Ls, Es):
         ls = [0.0, L * math.cos(th)]
         for a in (1e-9, 5.0, float(np.nextafter(10.0, 0)), 10.0, float(np.nextafter(10.0, 11)), 15.0):
@@ -159,50 +165,61 @@ SCAN_STEPS = [("band", 30, 300), ("band", 300, 1000), ("band", 330, 600), ("band
 def judge_scan(seq):
     """ONE EASRadio object on ONE live configuration that is changed in place between calls (a band / altitude scan):
     after every step the fields equal those of a fresh object built from a fresh configuration with the same values, bin
-    for bin, and the SNR is computable and finite"""
+    for bin, and the SNR is computable and finite. The fresh objects' results are computed first; the history then runs
+    with no other production call in between."""
     from nuspacesim.simulation.eas_radio.radio import EASRadio
 
-    state = {"low": 30.0, "high": 300.0, "alt": 525.0, "iono": True, "nant": 10}
-    cfg = make_cfg(state["alt"], state["low"], state["high"], state["iono"], state["nant"])
-    obj = EASRadio(cfg)
     evs = [(math.radians(10), 20.0, alt_of(20.0, math.radians(10)), 0.02, 1500.0, 1.0), (math.radians(5), 500.0, alt_of(500.0, math.radians(5)), 0.03, 1500.0, 3.0), (math.radians(3), 900.0, 12.0, 0.02, 1500.0, 1.0)]
     tkey = [0.3, 0.7, 0.1]
+    state = {"low": 30.0, "high": 300.0, "alt": 525.0, "iono": True, "nant": 10}
+    states = [dict(state)]
+    for i in seq:
+        op = SCAN_STEPS[i]
+        st = dict(states[-1])
+        if op[0] == "band":
+            st["low"], st["high"] = float(op[1]), float(op[2])
+        else:
+            st[op[0]] = op[1]
+        states.append(st)
+    wants = []
+    for st in states:
+        fc = make_cfg(st["alt"], st["low"], st["high"], st["iono"], st["nant"])
+        w, _, _, _ = call_radio(fc, evs, tkey)
+        wants.append((w, snr_of(fc, w)))
+    cfg = make_cfg(state["alt"], state["low"], state["high"], state["iono"], state["nant"])
+    obj = EASRadio(cfg)
     for step in range(len(seq) + 1):
         if step:
             op = SCAN_STEPS[seq[step - 1]]
+            st = states[step]
             if op[0] == "band":
-                state["low"], state["high"] = float(op[1]), float(op[2])
                 r = cfg.detector.radio
                 # (order of the two assignments chosen so that low < high holds throughout)
-                if state["low"] >= r.high_frequency:
-                    r.high_frequency = state["high"]
-                    r.low_frequency = state["low"]
+                if st["low"] >= r.high_frequency:
+                    r.high_frequency = st["high"]
+                    r.low_frequency = st["low"]
                 else:
-                    r.low_frequency = state["low"]
-                    r.high_frequency = state["high"]
+                    r.low_frequency = st["low"]
+                    r.high_frequency = st["high"]
             elif op[0] == "alt":
-                state["alt"] = op[1]
                 cfg.detector.initial_position.altitude = op[1]
             elif op[0] == "iono":
-                state["iono"] = op[1]
                 cfg.simulation.ionosphere.enable = op[1]
                 cfg.simulation.ionosphere.total_electron_content = -1.0
             elif op[0] == "nant":
-                state["nant"] = op[1]
                 cfg.detector.radio.nantennas = op[1]
         where = f"after {[SCAN_STEPS[i] for i in seq[:step]]}"
         try:
             got, _, _, _ = call_radio(cfg, evs, tkey, obj=obj)
         except Exception as ex:
             return [("scan_no_exception", f"{where}: fields", f"{type(ex).__name__}: {str(ex)[:100]}")]
-        fresh_cfg = make_cfg(state["alt"], state["low"], state["high"], state["iono"], state["nant"])
-        want, _, _, _ = call_radio(fresh_cfg, evs, tkey)
+        want, s2 = wants[step]
         if got.shape != want.shape:
             return [("scan_bin_count", f"{where}: {list(want.shape)}", list(got.shape))]
         if got.tobytes() != want.tobytes():
             return [("scan_fields_equal_fresh_object", f"{where}: fields of a fresh object", f"max rel diff {float(np.nanmax(np.abs(got - want) / (np.abs(want) + 1e-300))):.3g}")]
         try:
-            s, s2 = snr_of(cfg, got), snr_of(fresh_cfg, want)
+            s = snr_of(cfg, got)
         except Exception as ex:
             return [("snr_computable", f"{where}: snr", f"{type(ex).__name__}: {str(ex)[:100]}")]
         if s.shape != (len(evs),) or not np.all(np.isfinite(s)) or s.tobytes() != s2.tobytes():
